@@ -777,6 +777,14 @@ class Oracle(stateful.Stateful):
                 f"project at: {self._project_dir}"
             ) from e
 
+        # Ignore trial files the oracle file does not know about, which are
+        # left behind when the program stopped in the middle of `create_trial`.
+        self.trials = {
+            trial_id: trial
+            for trial_id, trial in self.trials.items()
+            if trial_id in self.start_order
+        }
+
         # Empty the ongoing_trials and send them for retry.
         for _, trial in self.ongoing_trials.items():
             self._retry_queue.append(trial.trial_id)
